@@ -61,10 +61,32 @@ LBL_ADDR = 0x34
 PH = re.compile(r"0x9A[0-9A-F]{2}")
 
 
-def _schema(stmt: str, order: str) -> str:
+def _schema(stmt: str, order: str, lbl: str = "LBL") -> str:
     if order == "fwd":
-        return f".ORG 0x10\nL0: {stmt}\nL1: NOP\n.ORG 0x{LBL_ADDR:X}\nLBL: NOP\n"
-    return f".ORG 0x{LBL_ADDR:X}\nLBL: NOP\n.ORG 0x50\nL0: {stmt}\nL1: NOP\n"
+        return f".ORG 0x10\nL0: {stmt}\nL1: NOP\n.ORG 0x{LBL_ADDR:X}\n{lbl}: NOP\n"
+    return f".ORG 0x{LBL_ADDR:X}\n{lbl}: NOP\n.ORG 0x50\nL0: {stmt}\nL1: NOP\n"
+
+
+def special_label_names(py: PyProgram) -> list[str]:
+    """Names the assembler front end itself gives a meaning to: members of the enum classes of the ISA layer that asm.py / sc_asm.py
+    refer to.  A user label may be spelled like one of them; its references must still encode the label's address."""
+    from ..pyfacts import ClassRef, PyEval
+    out: list[str] = []
+    used: set[str] = set()
+    for rel in (ASM_PY, SC_ASM_PY):
+        used |= {n.id for n in ast.walk(py.module(rel).tree) if isinstance(n, ast.Name)}
+    mod = py.module(isa.OPCODES_PY)
+    ev = PyEval(py, mod)
+    for c in [n for n in mod.tree.body if isinstance(n, ast.ClassDef)]:
+        if c.name not in used:
+            continue
+        members = ev.enum_members(ClassRef(mod.rel, c.name))
+        if not members:
+            continue
+        names = [m for m in members if re.fullmatch(r"[A-Z][A-Z0-9_]{2,}", m)]
+        if names:
+            out += [names[0], names[-1]]
+    return out
 
 
 def _run(aa: AsmAbs, text: str, symtab: dict) -> dict:
@@ -105,7 +127,8 @@ def check_stmt(job: tuple) -> list[dict]:
     if _W is None:
         _winit()
     _sw, aa = _W
-    kind, stmt, symitems = job
+    kind, stmt, symitems = job[:3]
+    LBL = job[3] if len(job) > 3 else "LBL"
     symtab = {k: SymStr(k, "num", bv) for k, bv in symitems}
     out: list[dict] = []
 
@@ -134,14 +157,22 @@ def check_stmt(job: tuple) -> list[dict]:
     phs = sorted(set(PH.findall(stmt)))
     consts = [] if phs or stmt.lower().startswith(("defm", "defs")) else sorted(set(re.findall(r"(?<![\w])0x[0-9A-Fa-f]+|(?<![\w])\d+", stmt)))[:2]
     for ph in phs + consts:
-        st_lbl = re.sub(r"(?<![\w])" + re.escape(ph) + r"(?![\w])", "LBL", stmt, count=1)
+        st_lbl = re.sub(r"(?<![\w])" + re.escape(ph) + r"(?![\w])", LBL, stmt, count=1)
         st_num = re.sub(r"(?<![\w])" + re.escape(ph) + r"(?![\w])", f"0x{LBL_ADDR:X}", stmt, count=1)
         if st_lbl == stmt:
             continue
         st2 = {k: v for k, v in symtab.items() if k != ph}
+        if LBL != "LBL":
+            # only positions that admit a label at all (an internal-memory operand takes register names and numbers, never labels)
+            g = _run(aa, _schema(re.sub(r"(?<![\w])" + re.escape(ph) + r"(?![\w])", "LBL", stmt, count=1), "fwd"), st2)
+            if g["status"] == "unknown":
+                out.append({"kind": kind, "stmt": st_lbl, "verdict": "unknown", "detail": g.get("exc")})
+                continue
+            if g["status"] != "ok":
+                continue
         for order in ("fwd", "bwd"):
-            rl = _run(aa, _schema(st_lbl, order), st2)
-            rn = _run(aa, _schema(st_num, order), st2)
+            rl = _run(aa, _schema(st_lbl, order, LBL), st2)
+            rn = _run(aa, _schema(st_num, order, LBL), st2)
             if "unknown" in (rl["status"], rn["status"]):
                 out.append({"kind": kind, "stmt": st_lbl, "verdict": "unknown", "detail": rl.get("exc") or rn.get("exc")})
                 continue
@@ -154,8 +185,8 @@ def check_stmt(job: tuple) -> list[dict]:
             size_check(f"label-{order}", rl, st_lbl)
             fl, fn = _stmt_facts(rl), _stmt_facts(rn)
             if fl and fn and fl["seg0"] and fn["seg0"]:
-                if rl["symbols"].get("LBL") != LBL_ADDR:
-                    out.append({"kind": kind, "stmt": st_lbl, "verdict": "label", "detail": f"label-{order}: LBL defined at 0x{LBL_ADDR:X} recorded as {rl['symbols'].get('LBL')}"})
+                if rl["symbols"].get(LBL) != LBL_ADDR:
+                    out.append({"kind": kind, "stmt": st_lbl, "verdict": "label", "detail": f"label-{order}: {LBL} defined at 0x{LBL_ADDR:X} recorded as {rl['symbols'].get(LBL)}"})
                 elif not _bytes_eq(fl["seg0"][1], fn["seg0"][1]):
                     out.append({"kind": kind, "stmt": st_lbl, "verdict": "label", "detail": f"label-{order}: `{st_lbl}` emits {_bs(fl['seg0'][1])}, with the value 0x{LBL_ADDR:X} in its place {_bs(fn['seg0'][1])}"})
                 else:
@@ -295,6 +326,15 @@ def statements(ctx: Ctx, py: PyProgram) -> None:
     jobs.append(("data", 'defm "A\\r\\n"', ()))
     jobs.append(("data", 'defm "tab\\tq\\x41\\0"', ()))
     jobs.append(("data", "defs 1", ()))
+    # the same label obligations with a label spelled like a name the front end knows (every data directive, a sample of instruction shapes)
+    special = special_label_names(py)
+    named = [j for j in jobs if j[0] == "data" and PH.search(j[1])] + [j for j in jobs if j[0] == "instr" and PH.search(j[1])][::12]
+    n_named = 0
+    for nm in special:
+        for j in named:
+            jobs.append((j[0], j[1], j[2], nm))
+            n_named += 1
+    ctx.sample({"special_label_names": special, "named_label_jobs": n_named})
     rows = isa.py_rows(py)
     near = sorted({(r.name + (r.cond or "")).upper() for r in rows.values() if r.cls in ("CALL", "JP_Abs") and len(r.ops) == 1 and r.ops[0].ctor == "Imm16"})
     far = sorted({(r.name + (r.cond or "")).upper() for r in rows.values() if r.cls in ("CALL", "JP_Abs") and len(r.ops) == 1 and r.ops[0].ctor == "Imm20"})
@@ -451,20 +491,43 @@ def passes(ctx: Ctx, py: PyProgram) -> None:
         if c is None:
             ctx.violation("C10.4/location", key_of(SC_ASM_PY, f"Assembler.{f['fn'].name}", "no _apply_location call"), f"{f['fn'].name} does not route SECTION/.ORG through _apply_location", f"{SC_ASM_PY}:{f['fn'].lineno}")
             continue
-        flag = unparse(c.args[3]) if len(c.args) > 3 else "?"
+        # arguments by the callee's parameter names, not by position
+        params = [a.arg for a in loc.args.args if a.arg != "self"]
+        bound = {params[i]: a for i, a in enumerate(c.args) if i < len(params)}
+        bound.update({k.arg: k.value for k in c.keywords if k.arg})
+        flag = unparse(bound["first_pass"]) if "first_pass" in bound else "?"
         want = "True" if tag == "pass1" else "False"
         if flag != want:
             ctx.violation("C10.4/location", key_of(SC_ASM_PY, f"Assembler.{f['fn'].name}", "first_pass flag"), f"{f['fn'].name} calls _apply_location with first_pass={flag}", f"{SC_ASM_PY}:{c.lineno}")
-        # the pointer read `X[current_section]` used as the statement address must come after the call in the loop body
-        secvar = unparse(c.args[2]) if len(c.args) > 2 else "?"      # the variable handed to _apply_location as the current section
-        ptrs = unparse(c.args[1]) if len(c.args) > 1 else "?"        # ... and the pointer table it updates
+        # the statement address is read as `<pointer table>[<current section>]`, where the pointer table is the one handed to
+        # _apply_location; the read must come after the call in the loop body.  The current section is whatever indexes that read:
+        # a local threaded through _apply_location or an attribute of the assembler.
+        tables = {unparse(a) for a in bound.values()}
+        reads = [s for s in ast.walk(f["loop"]) if isinstance(s, ast.Assign) and isinstance(s.value, ast.Subscript) and unparse(s.value.value) in tables]
+        if not reads:
+            raise AnalysisError(f"{f['fn'].name}: statement address read `pointers[current_section]` not found")
+        secvar, ptrs = unparse(reads[0].value.slice), unparse(reads[0].value.value)
         f["secvar"], f["ptrs"] = secvar, ptrs
-        reads = [s for s in ast.walk(f["loop"]) if isinstance(s, ast.Assign) and isinstance(s.value, ast.Subscript) and unparse(s.value.slice) == secvar and unparse(s.value.value) == ptrs]
         for rd in reads:
             if rd.lineno < c.lineno:
                 ctx.violation("C10.4/location", key_of(SC_ASM_PY, f"Assembler.{f['fn'].name}", "pointer read before _apply_location"), "the statement address is read before SECTION/.ORG of the same line is applied", f"{SC_ASM_PY}:{rd.lineno}")
-        if not reads:
-            raise AnalysisError(f"{f['fn'].name}: statement address read `pointers[current_section]` not found")
+        # each pass replays the program from the top: the current section starts at the default one in *this* pass
+        n += 1
+        inits = [s2 for s2 in f["fn"].body if isinstance(s2, ast.Assign) and s2.lineno < f["loop"].lineno and any(unparse(t) == secvar for t in s2.targets)]
+        if not inits and secvar.startswith("self."):
+            # an attribute may equally be reset by assemble() right before it runs this pass
+            top = _fn(py, SC_ASM_PY, "Assembler", "assemble")
+            calls_here = [x.lineno for x in ast.walk(top) if isinstance(x, ast.Call) and unparse(x.func) == f"self.{f['fn'].name}"]
+            if calls_here:
+                inits = [s2 for s2 in ast.walk(top) if isinstance(s2, ast.Assign) and s2.lineno < min(calls_here) and any(unparse(t) == secvar for t in s2.targets)
+                         and not any(isinstance(o, (ast.If, ast.For, ast.While, ast.Try)) and s2 in ast.walk(o) for o in top.body)]
+        if not inits:
+            ctx.violation("C10.4/section-start", key_of(SC_ASM_PY, f"Assembler.{f['fn'].name}", "current section not re-initialised"),
+                          f"{f['fn'].name} never sets `{secvar}` before its loop: the pass starts in whatever section an earlier pass (or an earlier assemble() on the same object) ended in, "
+                          "so the same source assembles to different addresses the second time", f"{SC_ASM_PY}:{f['loop'].lineno}")
+        elif unparse(inits[-1].value) not in ("self.DEFAULT_SECTION", "Assembler.DEFAULT_SECTION"):
+            ctx.violation("C10.4/section-start", key_of(SC_ASM_PY, f"Assembler.{f['fn'].name}", "current section starts elsewhere"),
+                          f"{f['fn'].name} starts in section `{unparse(inits[-1].value)}`, not DEFAULT_SECTION", f"{SC_ASM_PY}:{inits[-1].lineno}")
     # S3 _apply_location: branches on first_pass must agree on what they assign
     for iff in [s for s in ast.walk(loc) if isinstance(s, ast.If) and "first_pass" in unparse(s.test)]:
         n += 1
